@@ -52,7 +52,7 @@ pub const OPAQUES: &[&[u8]] = &[
     b"foo", b"", b"a, b", b"x y", b"bar", b"\x80\xff", b"W/", b"*", b"foo,", b"1234567890abcdef",
     // the list separators themselves, backslashes (ordinary bytes in an entity-tag), Latin-1 and
     // U+FFFD spelled out
-    b",", b", ", b"\\", b"C:\\dir\\", b"a\\\\", b"v\xe9", b"\xef\xbf\xbd",
+    b"5D41aB", b",", b", ", b"\\", b"C:\\dir\\", b"a\\\\", b"v\xe9", b"\xef\xbf\xbd",
 ];
 
 /// Bytes of an opaque tag: etagc (0x21, 0x23-0x7E, obs-text) and space, biased towards the bytes a
@@ -75,6 +75,32 @@ pub fn etag_strategy() -> BoxedStrategy<Option<Bs>> {
         1 => opaque_strategy().prop_map(|o| Some(quote(&o, true))),
     ]
     .boxed()
+}
+
+/// Tags that differ from `tag` only in the case of ASCII letters of the opaque part (the `W/`
+/// prefix is left alone): comparison is byte-wise, so these are different tags.
+pub fn case_twins(tag: &[u8]) -> Vec<Vec<u8>> {
+    let start = if tag.starts_with(b"W/") { 2 } else { 0 };
+    let mut out = Vec::new();
+    let fs: [fn(u8) -> u8; 3] = [|b| b.to_ascii_uppercase(), |b| b.to_ascii_lowercase(), |b| if b.is_ascii_lowercase() { b.to_ascii_uppercase() } else { b.to_ascii_lowercase() }];
+    for f in fs {
+        let mut t = tag.to_vec();
+        for b in &mut t[start..] {
+            *b = f(*b);
+        }
+        if t != tag && !out.contains(&t) {
+            out.push(t);
+        }
+    }
+    // only the first letter
+    if let Some(i) = tag[start..].iter().position(|b| b.is_ascii_alphabetic()) {
+        let mut t = tag.to_vec();
+        t[start + i] ^= 0x20;
+        if !out.contains(&t) {
+            out.push(t);
+        }
+    }
+    out
 }
 
 /// Variants of a tag that differ from it in exactly one byte of the opaque part (same class of
@@ -353,6 +379,7 @@ pub fn tag_candidates(etag: &Option<Bs>) -> Vec<Vec<u8>> {
         longer.insert(longer.len() - 1, b'x');
         c.push(longer);
         c.extend(one_byte_off(&t.0).into_iter().take(2));
+        c.extend(case_twins(&t.0));
     }
     // neighbours whose closing quote, separator and opening quote spell a quoted separator
     c.push(b"\"a,\"".to_vec());
